@@ -396,7 +396,7 @@ func init() {
 		Shards: shards(8, 16),
 		Meta: func(tier string) rt.Meta {
 			return rt.Meta{Level: "exploration", MinEvals: 10000, MinDistinct: 20,
-				Rule:        "the harness is built with -race and every workload runs free on all cores with a seeded yield at a fraction of the lock sites (verif hook): (1) 2-16 goroutines issuing random calls of all ~40 kinds (incl. Rename, Link, Symlink, Truncate, Chmod, Chown, Chtimes, ReadDir/WalkDir while mutating, temp creation, handle I/O) over 3 names in a shared tree - MemFS through per-goroutine Sub views with different users and umasks and their own cwd, one shared OrefaFS; (2) six goroutines sharing ONE handle and each owning another handle on the same file, plus a shared directory handle, while names are created and removed; (3) one shared MemIdm under add/del/lookup; (3b) six goroutines copying and hashing distinct files concurrently (CopyFileHash/HashFile share a pool of buffers): every copy ends with its own bytes and digest; (4) visibility: writers create names carrying their id and publish a counter after the call returned, readers read the counter before Stat/ReadDir/ReadFile and must see the name (unique names make the log unambiguous). Race reports are collected with GORACE=halt_on_error=0 log_path=..., counted from the log files and de-duplicated by the pair of innermost avfs functions; a runtime fatal error (concurrent map access) in a worker is a violation. Signature = workload | call kind; evaluations = calls executed; non-trivial = call kinds executed concurrently with others on the shared tree.",
+				Rule:        "the harness is built with -race and every workload runs free on all cores with a seeded yield at a fraction of the lock sites (verif hook): (1) 2-16 goroutines issuing random calls of all ~40 kinds (incl. Rename, Link, Symlink, Truncate, Chmod, Chown, Chtimes, ReadDir/WalkDir while mutating, temp creation, handle I/O) over 3 names in a shared tree - MemFS through per-goroutine Sub views with different users and umasks and their own cwd, one shared OrefaFS, everybody also setting and reading the creation mask; (2) six goroutines sharing ONE handle and each owning another handle on the same file, plus a shared directory handle, while names are created and removed; (3) one shared MemIdm under add/del/lookup; (3b) six goroutines copying and hashing distinct files concurrently (CopyFileHash/HashFile share a pool of buffers): every copy ends with its own bytes and digest; (4) visibility: writers create names carrying their id and publish a counter after the call returned, readers read the counter before Stat/ReadDir/ReadFile and must see the name (unique names make the log unambiguous). Race reports are collected with GORACE=halt_on_error=0 log_path=..., counted from the log files and de-duplicated by the pair of innermost avfs functions; a runtime fatal error (concurrent map access) in a worker is a violation. Signature = workload | call kind; evaluations = calls executed; non-trivial = call kinds executed concurrently with others on the shared tree.",
 				Assumptions: []string{"only races of the schedules that ran are seen (inherent to dynamic race detection)", "sharing one OrefaFS *view* among goroutines that Chdir/SetUser it is not exercised: those write unsynchronised per-view fields and are not part of the documented use"}}
 		},
 		CrashIsViolation: true,
